@@ -99,8 +99,38 @@ def emit():
         open(os.path.join(d,'c07_gen.go'),'w').write("\n".join(src))
     return dirs,groups
 
+def derive_boundaries(groups):
+    """Derive bounds from the code: every integer constant K that the package compares with a len(...) contributes the
+    input lengths K-1, K, K+1 to the quick grid (within the thorough range), so that each length threshold of the decoders
+    is crossed in both directions."""
+    import re, glob
+    pats=[re.compile(r'len\(\w+(?:\.\w+)*\)\s*(?:<|<=|>|>=|==|!=)\s*(\d+)'),re.compile(r'(\d+)\s*(?:<|<=|>|>=|==|!=)\s*len\('),
+          re.compile(r'\+\s*(\d+)\s*(?:>|>=)\s*len\('),re.compile(r'len\(\w+(?:\.\w+)*\)\s*<\s*\w+\s*\+\s*(\d+)')]
+    def expand(spec):
+        out=set()
+        for x in spec:
+            if '..' in x:
+                a,b=x.split('..'); out|=set(range(int(a),int(b)+1))
+            else: out.add(int(x))
+        return out
+    skip=('H_C07_Command','H_C07_DecodeMessage_counts','H_C07_FromFormat','H_C07_FromString','H_C07_Message')
+    for g in groups:
+        if g.get('input_len_param')!='n' or g['harness'].startswith(skip): continue
+        consts=set()
+        for f in glob.glob('/repo/'+g['pkg']+'/*.go'):
+            if f.endswith('_test.go'): continue
+            src=open(f).read()
+            for p in pats:
+                consts|={int(m) for m in p.findall(src)}
+        q=expand(g['grid']['quick']['n']); t=expand(g['grid']['thorough']['n'])
+        add=sorted({v for k in consts for v in (k-1,k,k+1) if 0<=v<=max(t)}-q)
+        if add:
+            g['grid']['quick']['n']=g['grid']['quick']['n']+[str(v) for v in add]
+            g['bounds']=g.get('bounds','')+' (+ lengths around every constant the package compares with len(): '+','.join(map(str,add))+')'
+
 if __name__=='__main__':
     dirs,groups=emit()
+    derive_boundaries(groups)
     extra=json.load(open('/verif/gen/c07_extra.json')) if os.path.exists('/verif/gen/c07_extra.json') else {"harness_dirs":[],"groups":[]}
     for d in extra["harness_dirs"]:
         if d not in dirs: dirs.append(d)
